@@ -50,10 +50,6 @@ func checkC10(c *Ctx) {
 	c09shiftModel(c, "", "C10.R1")
 }
 
-func isTransformerType(t types.Type) bool {
-	return isNamed(t, modPath+"/proj", "Transformer")
-}
-
 type selPart struct {
 	obj   types.Object
 	field string
